@@ -227,9 +227,13 @@ def check(prop, tier="quick", seed=0, procs=None, verbose=False):
     obligations = []
     undecided = []
     crashes = []
+    excluded = 0
     for r in results:
         for o in r["obligations"]:
             o["unit"] = r["unit"]
+            if any(fnmatch.fnmatch(o["name"], pat) for pat in getattr(prop, "exclude", ())):
+                excluded += 1
+                continue
             obligations.append(o)
         for u in r["undecided"]:
             undecided.append({"unit": r["unit"], "reason": u[0]})
@@ -384,6 +388,7 @@ def check(prop, tier="quick", seed=0, procs=None, verbose=False):
             "unit_seconds": round(sum(r.get("seconds", 0) for r in results), 2),
             "fd_grid_points": sum(r.get("fd_points", 0) for r in results),
             "refuted": len(refuted),
+            "obligations_of_shared_units_belonging_to_other_properties": excluded,
             "known_findings": [k.get("what") for k, _ in known_hits],
             "undecided": undecided[:40],
             "undecided_count": len(undecided),
